@@ -31,6 +31,10 @@ QUICK = [c for c in c04.QUICK if c[2] is None] + [
     ('scaled_periodic_base', dict(T=5, base='periodic_contract'), None, 'B'),
     ('scaled_periodic_transport_base', dict(T=5, base='periodic_transport'), None, 'B'),
     ('storage_window_no_simult', dict(T=4, win_s=(2, 4), storage_kw=dict(no_simult_in_out=True)), None, 'A'),
+    ('minload_plant_fuel_and_ramps', dict(T=3, fuel=True, ramps=True), None, 'B'),
+    ('minload_plant_late_window', dict(T=4, fuel=True, ramps=False, win=(2, 4)), None, 'B'),
+    ('minload_plant_fuel_only', dict(T=3, fuel=True, ramps=False), None, 'B'),
+    ('minload_chp_ramps', dict(T=2, fuel=False, ramps=True, heat=True), None, 'B'),
     ('storage_window_max_duration', dict(T=4, eff=None, win_s=(2, 4), storage_kw=dict(max_store_duration=1, costs=False)), None, 'A'),
     ('plant_window_late', dict(T=4, fuel=True, mr=2, win=(2, 4)), None, 'B'),
 ]
@@ -39,7 +43,7 @@ THOROUGH = QUICK + [c for c in c04.THOROUGH if c[2] is None and c not in c04.QUI
     ('contract_storage_mip', dict(T=3, storage_kw=dict(no_simult_in_out=True)), None, 'B'),
     ('contract_storage_msd', dict(T=4, storage_kw=dict(max_store_duration=2)), None, 'B'),
 ]
-SHAPE_OF = dict(c04.SHAPE_OF, storage_window_max_duration='contract_storage', scaled_periodic_base='scaled', scaled_periodic_transport_base='scaled', storage_window_no_simult='contract_storage', plant_window_late='plant', plant_dict_costs='plant', names_collide='names', names_collide_T12='names', plant_win_empty='plant',
+SHAPE_OF = dict(c04.SHAPE_OF, minload_plant_fuel_and_ramps='plant_minload', minload_plant_fuel_only='plant_minload', minload_plant_late_window='plant_minload', minload_chp_ramps='plant_minload', storage_window_max_duration='contract_storage', scaled_periodic_base='scaled', scaled_periodic_transport_base='scaled', storage_window_no_simult='contract_storage', plant_window_late='plant', plant_dict_costs='plant', names_collide='names', names_collide_T12='names', plant_win_empty='plant',
                 orderbook_all_outside='orderbook', contract_storage_mip='contract_storage',
                 contract_storage_msd='contract_storage')
 GRIDV_QUICK = [('two_node', 'month_d'), ('plant_dict_costs', 'day_d_cet_dst'), ('windows_gap', 'quarter_min'), ('scaled_storage', 'day_h_useast_fall')]
@@ -55,6 +59,7 @@ PERIODIC = [
     ('periodic_map_transport_T6', dict(kind='transport', T=6, eff=0.5)),
     ('periodic_map_transport_dur', dict(kind='transport', T=8, eff=0.5, duration='4h')),
     ('periodic_map_storage', dict(kind='storage', T=4, eff=0.75)),
+    ('periodic_map_ext_transport', dict(kind='ext_transport', T=6, eff=0.5)),
     ('periodic_map_multicommodity', dict(kind='multicommodity', T=6)),
 ]
 
